@@ -120,4 +120,14 @@ theorem named_intersection_member_not_merged :
     (match IR.allOf' [.ref "A", .object [("b", true, .number)] none] with
       | .allOf _ => true | _ => false) = true := by decide +kernel
 
+/-- … and members that share a key are merged only when the two property types are the same TERM: naming the type
+under one of them keeps the intersection as `allOf` (witness for D39b at the IR level) -/
+theorem shared_key_merge_is_syntactic :
+    (match IR.allOf' [.object [("b", true, .const (.num "1.5"))] none,
+        .object [("b", true, .const (.num "1.5")), ("t", false, .number)] none] with
+      | .object _ _ => true | _ => false) = true ∧
+    (match IR.allOf' [.object [("b", true, .ref "Al")] none,
+        .object [("b", true, .const (.num "1.5")), ("t", false, .number)] none] with
+      | .allOf _ => true | _ => false) = true := by decide +kernel
+
 end BeffVerif.C08
